@@ -56,6 +56,9 @@ namespace igris
             using Type = typename Container::value_type;
             auto size = archive.template deserialize<uint16_t>();
 
+            // The decoded value replaces whatever the receiver held.
+            listtag.container.clear();
+
             for (int i = 0; i < size; ++i)
             {
                 Type elem = archive.template deserialize<Type>();
